@@ -109,6 +109,13 @@ def run(ctx):
                                      [['supported', [1, 0]], ['authenticate', None], ['challenge', 'good'], ['auth_success', None]]))
                 directed.append(({'flavour': fl, 'auth': 'dict', 'compression': 'snappy', 'version': 1}, [0, 1],
                                  [['supported', [1]], ['authenticate', None], ['ready', None]]))
+            # v5/v6 x snappy as the chosen algorithm (only common one, or requested by name): nothing may be negotiated or applied
+            for fl in ('asyncio', 'twisted'):
+                for v in (5, 6):
+                    for comp, local, remote in ((True, [1], [1]), (True, [0, 1], [1]), (True, [1, 0], [0, 1]), ('snappy', [0, 1], [0, 1]), ('snappy', [1], [1, 2])):
+                        directed.append(({'flavour': fl, 'auth': 'none', 'compression': comp, 'version': v}, local, [['supported', remote], ['ready', None]]))
+                        directed.append(({'flavour': fl, 'auth': 'sasl', 'compression': comp, 'version': v}, local,
+                                         [['supported', remote], ['authenticate', None], ['challenge', 'good'], ['auth_success', None]]))
             for cfg, local, replies in directed:
                 results.append(summarize(cfg, local, replies, H.run_case(cfg, local, replies)))
                 ctx.count('source', 'corpus+directed')
